@@ -158,8 +158,10 @@ pub fn mask() -> impl Strategy<Value = Vec<u8>> {
     ]
 }
 
-/// Holidays around day `b`: runs of consecutive days, singles, duplicates allowed.
-pub fn hols_around(b: i64, spread: i64) -> impl Strategy<Value = Vec<i64>> {
+/// Holidays as offsets around day 0 (shifted to a base day afterwards with `shift`, so that no
+/// flat-map is needed and shrinking stays effective): runs of consecutive days, singles,
+/// duplicates allowed.
+pub fn hols_rel(spread: i64) -> impl Strategy<Value = Vec<i64>> {
     let nr = if spread > 100 { 8 } else { 4 };
     let ns = if spread > 100 { 16 } else { 8 };
     let runs = proptest::collection::vec(
@@ -171,38 +173,38 @@ pub fn hols_around(b: i64, spread: i64) -> impl Strategy<Value = Vec<i64>> {
         let mut v = Vec::new();
         for (s, l) in runs {
             for i in 0..l {
-                v.push(b + s + i);
+                v.push(s + i);
             }
         }
         for s in singles {
-            v.push(b + s);
+            v.push(s);
         }
         v
     })
 }
 
-pub fn cal_spec_around(b: i64, spread: i64) -> impl Strategy<Value = CalSpec> {
-    (mask(), hols_around(b, spread)).prop_map(|(mask, hols)| CalSpec { mask, hols })
+pub fn cal_spec_rel(spread: i64) -> impl Strategy<Value = CalSpec> {
+    (mask(), hols_rel(spread)).prop_map(|(mask, hols)| CalSpec { mask, hols })
 }
 
 pub fn builtin_name() -> impl Strategy<Value = String> {
     (0usize..BUILTIN.len()).prop_map(|i| BUILTIN[i].to_string())
 }
 
-pub fn member_around(b: i64, spread: i64) -> impl Strategy<Value = MemberSpec> {
+pub fn member_rel(spread: i64) -> impl Strategy<Value = MemberSpec> {
     prop_oneof![
-        3 => cal_spec_around(b, spread).prop_map(MemberSpec::Custom),
+        3 => cal_spec_rel(spread).prop_map(MemberSpec::Custom),
         1 => builtin_name().prop_map(MemberSpec::Builtin),
     ]
 }
 
-pub fn union_spec_around(b: i64, spread: i64) -> impl Strategy<Value = UnionSpec> {
+pub fn union_spec_rel(spread: i64) -> impl Strategy<Value = UnionSpec> {
     (
-        proptest::collection::vec(member_around(b, spread), 1..4),
+        proptest::collection::vec(member_rel(spread), 1..4),
         prop_oneof![
             2 => Just(None),
             1 => Just(Some(vec![])),
-            5 => proptest::collection::vec(member_around(b, spread), 1..3).prop_map(Some),
+            5 => proptest::collection::vec(member_rel(spread), 1..3).prop_map(Some),
         ],
     )
         .prop_map(|(members, settle)| sanitise_union(UnionSpec { members, settle }))
@@ -268,10 +270,42 @@ pub fn named_string() -> impl Strategy<Value = String> {
         })
 }
 
-pub fn any_cal_around(b: i64, spread: i64) -> impl Strategy<Value = AnyCal> {
+pub fn any_cal_rel(spread: i64) -> impl Strategy<Value = AnyCal> {
     prop_oneof![
-        3 => cal_spec_around(b, spread).prop_map(AnyCal::Cal),
-        5 => union_spec_around(b, spread).prop_map(AnyCal::Union),
+        3 => cal_spec_rel(spread).prop_map(AnyCal::Cal),
+        5 => union_spec_rel(spread).prop_map(AnyCal::Union),
         2 => named_string().prop_map(AnyCal::Named),
     ]
+}
+
+impl CalSpec {
+    pub fn shift(mut self, b: i64) -> Self {
+        self.hols.iter_mut().for_each(|h| *h += b);
+        self
+    }
+}
+impl MemberSpec {
+    pub fn shift(self, b: i64) -> Self {
+        match self {
+            MemberSpec::Custom(c) => MemberSpec::Custom(c.shift(b)),
+            o => o,
+        }
+    }
+}
+impl UnionSpec {
+    pub fn shift(self, b: i64) -> Self {
+        UnionSpec {
+            members: self.members.into_iter().map(|m| m.shift(b)).collect(),
+            settle: self.settle.map(|v| v.into_iter().map(|m| m.shift(b)).collect()),
+        }
+    }
+}
+impl AnyCal {
+    pub fn shift(self, b: i64) -> Self {
+        match self {
+            AnyCal::Cal(c) => AnyCal::Cal(c.shift(b)),
+            AnyCal::Union(u) => AnyCal::Union(u.shift(b)),
+            o => o,
+        }
+    }
 }
